@@ -26,7 +26,8 @@ pub fn gen_shape(rng: &mut Rng) -> MapShape {
             _ => None,
         },
         sparse: rng.chance(1, 2),
-        sourceless_segments: false,
+        // one-field segments (generated code without an original position) in some maps
+        sourceless_segments: rng.chance(1, 4),
         sources_content: rng.chance(1, 3),
     }
 }
